@@ -297,7 +297,7 @@ func runC16(c *fw.Check) {
 	for i, d := range ds {
 		canon[i] = d.canon()
 	}
-	c.Rule = fmt.Sprintf("type universe = all descriptors of constructor depth <=%d over {void,label,token,metadata,x86_mmx,i1,i8,i32,half,float,double, identified structs A,B} with pointers in 2 address spaces, fixed/scalable vectors of 2 lengths, arrays of 2 lengths, literal/packed structs and (variadic) function types of <=2 members; %d universes of bodies for A,B (opaque, plain, self-recursive, mutually recursive, same-body, recursion through function/array). For each universe two independent instance sets X,Y are built and Equal is evaluated on ALL ordered pairs X[i],Y[j] and X[i],X[j] against the descriptor identity (reflexive/symmetric/transitive follow from agreeing with an equivalence on all pairs); in the first universe also against instance sets whose non-struct types all carry the same type name, and pairwise different names (only structs are identified by name); each type is printed in a module, re-parsed, and the parsed type compared with ALL types. distinct = ordered pairs.", depth, c16universes)
+	c.Rule = fmt.Sprintf("type universe = all descriptors of constructor depth <=%d over {void,label,token,metadata,x86_mmx,i1,i8,i32,half,float,double, identified structs A,B} with pointers in 2 address spaces, fixed/scalable vectors of 2 lengths, arrays of 2 lengths, literal/packed structs and (variadic) function types of <=2 members; %d universes of bodies for A,B (opaque, plain, self-recursive, mutually recursive, same-body, recursion through function/array). For each universe two independent instance sets X,Y are built and Equal is evaluated on ALL ordered pairs X[i],Y[j] and X[i],X[j] against the descriptor identity (reflexive/symmetric/transitive follow from agreeing with an equivalence on all pairs); in the first universe also against instance sets whose non-struct types all carry the same type name, and pairwise different names (only structs are identified by name); each type is printed in a module, re-parsed, and the parsed type compared with ALL types; for every type of depth <=2, every node of its graph and every applicable in-place edit (width, kind, address space, length, scalability, packedness, variadicity, naming a literal struct, replacing an element type) the edited graph -- which has been compared before -- is compared with fresh instances of the edited and of the original type. distinct = ordered pairs.", depth, c16universes)
 	c.Extra["types"] = n
 	for u := 0; u < c16universes; u++ {
 		envX, envY := c16env(u), c16env(u)
@@ -368,6 +368,7 @@ func runC16(c *fw.Check) {
 		// print -> parse -> Equal.
 		c16roundtrip(c, u, ds, canon, X, envX)
 	}
+	c16mutations(c)
 	c.Sample(map[string]string{"t": canon[len(canon)/2], "u": canon[len(canon)/3], "oracle": "Equal(t,u) == (canon(t)==canon(u))"})
 	c.Sample(map[string]string{"t": canon[len(canon)-1], "printed_and_reparsed": ds[len(ds)-1].build(c16env(1)).String()})
 }
